@@ -25,7 +25,7 @@ def expected(blocks, advance):
     return out
 
 
-def tiny_header(rng, n_fields, target_len, relayed_target=False):
+def tiny_header(rng, n_fields, target_len, relayed_target=False, measure=None):
     """A syntactically valid 19/20-field header of exactly `target_len` bytes (or, with relayed_target,
     whose form without proof/coinbase fields has that length), built from small fields."""
     cb = bytes(rng.getrandbits(8) for _ in range(70))
@@ -40,6 +40,8 @@ def tiny_header(rng, n_fields, target_len, relayed_target=False):
         f = f + tail
         raw = enc.rlp_encode(f)
         rel = enc.rlp_encode(enc.header_no_mm(f, True))
+        if measure is not None:
+            return f, raw, measure(f, raw)
         return f, raw, len(rel if relayed_target else raw)
     extra = 0
     for _ in range(12):
@@ -54,6 +56,35 @@ def tiny_header(rng, n_fields, target_len, relayed_target=False):
         if n == target_len:
             return {"fields": f, "cb": cb, "raw": raw}
     return None
+
+
+MEASURES = {
+    # what the metadata announces: payload length of the header's list without the merge-mining fields
+    "nomm_payload": lambda f, raw: enc.mm_payload_len(f),
+    # the whole header as the client sent it
+    "raw_len": lambda f, raw: len(raw),
+    # the list the device is handed by updateAncestorBlock (merge-mining proof and coinbase removed)
+    "relayed_len": lambda f, raw: len(enc.rlp_encode(enc.header_no_mm(f, True))),
+}
+# lengths at which RLP changes form (short / long list and string, 1 / 2 / 3 length bytes) or a length field
+# of the wire protocol wraps
+BOUNDARY_LENGTHS = [54, 55, 56, 57, 58, 254, 255, 256, 257, 258, 511, 512, 513]
+BOUNDARY_LENGTHS_BIG = [65533, 65534, 65535]
+
+
+def boundary_blocks(rng, what, target, advance, n_bros=1):
+    """One block (and, for advance, brothers of the same kind) whose `what` is exactly `target`."""
+    b = tiny_header(rng, rng.choice([19, 20]), target, measure=MEASURES[what])
+    if b is None:
+        return None
+    b["brothers"] = []
+    if advance:
+        for _ in range(n_bros):
+            x = tiny_header(rng, rng.choice([19, 20]), target, measure=MEASURES[what])
+            if x is None:
+                return None
+            b["brothers"].append(x)
+    return [b]
 
 
 def tiny_blocks(rng, block_lens, bro_lens, unit, advance):
